@@ -4,6 +4,8 @@
      /repo/src/cffi/vengine_cpy.py   (cffimod_header: _cffi_to_c_int dispatch, _cffi_to_c_iN/uN
                                       export indices, _cffi_from_c_int)
      /repo/src/cffi/_cffi_include.h  (the same macros as used by set_source() modules)
+     /repo/src/cffi/vengine_gen.py   (_generate_gen_const / _load_constant, integer constants; vengine_cpy.py
+                                      _cffi_from_c_int_const)
    Do not edit: this committed copy is the snapshot used when the translator fails. *)
 From Coq Require Import ZArith List.
 Import ListNotations.
@@ -42,3 +44,15 @@ Definition include_to_c_int_dispatch : list (Z * Z * Z) :=
 (* _cffi_from_c_int(x, type) has the expected text in both headers *)
 Definition vengine_from_c_int_standard : bool := true.
 Definition include_from_c_int_standard : bool := true.
+
+(* vengine_gen.py _generate_gen_const, integer constant X: `*out_value = (long long)(X); return (X) <= 0;`
+   (the comparison is done in X's own promoted type, where it agrees with the mathematical one) *)
+Definition vgen_out_value (x : Z) : Z := to_ll x.
+Definition vgen_return (x : Z) : bool := (x <=? 0).
+(* vengine_gen.py _load_constant: negative = function(p); value = int(p[0]); if value < 0 and (not negative): value += 1 << 8 * self.ffi.sizeof(BLongLong) *)
+Definition vgen_load_fixup (value : Z) (negative : bool) : Z :=
+  if (andb (value <? (0)) (negb negative)) then value + (Z.shiftl (1) (Z.mul (8) (8))) else value.
+(* vengine_cpy.py #define _cffi_from_c_int_const(x); PyLong_FromT(v) is the Python int v; LONG_MAX/LONG_MIN: sizeof(long) = 8 *)
+Definition vcpy_from_c_int_const (x : Z) : Z :=
+  if (x >? 0) then (if (to_ull x <=? to_ull LONG_MAX) then (to_ll x) else (to_ull x))
+  else (if (to_ll x >=? to_ll LONG_MIN) then (to_ll x) else (to_ll x)).
